@@ -10,7 +10,7 @@
 //	            init and the initialiser) that assign it, write through it (index, field, append, delete, ++,
 //	            method call on map/slice/chan/sync values); also assignments to package vars of other modules
 //	map_ranges  every `range` over a map-typed expression with a classification of the loop body
-//	nd_sites    time.Now/Since/Until, math/rand, crypto/rand, unsafe, go statements, select, os.Getenv,
+//	nd_sites    time.Now/Since/Until, the local time zone (time.Unix not converted at once, time.Local, t.Local()), math/rand, crypto/rand, unsafe, go statements, select, os.Getenv,
 //	            %p formatting
 //
 // Types come from go/types. The tree's own packages are type-checked from source; the standard library
@@ -1721,6 +1721,24 @@ func (g *detGen) sites() []detSite {
 					switch {
 					case pk == "time" && (x.Sel.Name == "Now" || x.Sel.Name == "Since" || x.Sel.Name == "Until" || x.Sel.Name == "After" || x.Sel.Name == "Tick" || x.Sel.Name == "Sleep" || x.Sel.Name == "NewTimer" || x.Sel.Name == "NewTicker"):
 						kind = "TimeNow"
+					case pk == "time" && (x.Sel.Name == "Local" || x.Sel.Name == "LoadLocation"):
+						kind = "Getenv" // the node's own time zone
+					case pk == "time" && (x.Sel.Name == "Unix" || x.Sel.Name == "UnixMilli" || x.Sel.Name == "UnixMicro"):
+						// time.Unix returns a Time in the process-local zone: formatting it, or taking its calendar fields, depends
+						// on the machine's TZ. Harmless only when the value is converted or compared at once (.UTC(), .Unix(), ...)
+						kind = "Getenv"
+						if len(stack) >= 3 {
+							if call, ok := stack[len(stack)-2].(*ast.CallExpr); ok && call.Fun == ast.Expr(x) {
+								if outer, ok := stack[len(stack)-3].(*ast.SelectorExpr); ok && outer.X == ast.Expr(call) {
+									switch outer.Sel.Name {
+									case "UTC", "Unix", "UnixNano", "UnixMilli", "UnixMicro", "Equal", "Before", "After", "Sub", "Compare", "IsZero":
+										kind = ""
+									}
+								}
+							}
+						}
+					case pk == "" && x.Sel.Name == "Local" && p.info.TypeOf(x.X) != nil && p.info.TypeOf(x.X).String() == "time.Time":
+						kind = "Getenv" // t.Local()
 					case pk == "os" && (x.Sel.Name == "Getenv" || x.Sel.Name == "LookupEnv" || x.Sel.Name == "Environ" || x.Sel.Name == "Hostname" || x.Sel.Name == "Getpid"):
 						kind = "Getenv"
 					case pk == "math/rand" || pk == "math/rand/v2":
